@@ -3,13 +3,13 @@ import itertools, random
 from .common import Scenario, MAX
 
 ALL_SHAPES = ["One", "Two", "Flat4", "Heap", "DrH", "DrN", "DrP", "PlC", "NFirst", "NFirstF", "Hyg", "N2", "ZZ", "NMid", "NMidF",
-              "NLast", "NLastF", "Deep", "DeepF", "HygD0", "HygD1", "HygD2", "HygD3", "HygD4"]
+              "NLast", "NLastF", "Deep", "DeepF", "NPl", "HygD0", "HygD1", "HygD2", "HygD3", "HygD4"]
 NOCLONE = set()   # (the Drop shapes had no Clone API before /repo 72750cf)
 DROP_SHAPES = ["DrH", "DrN", "DrNN", "DrP"]
 TWINS = [("NFirst", "NFirstF"), ("NMid", "NMidF"), ("NLast", "NLastF"), ("Deep", "DeepF")]
 NLEAVES = {"DrP": 2, "PlC": 2, "One": 1, "Two": 2, "Flat4": 4, "Heap": 2, "DrH": 2, "DrN": 3, "DrNN": 3, "NFirst": 3, "NFirstF": 3, "Hyg": 6, "N2": 4, "ZZ": 2,
            "NMid": 4, "NMidF": 4, "NLast": 3, "NLastF": 3, "Deep": 5, "DeepF": 5,
-           "HygD0": 8, "HygD1": 8, "HygD2": 8, "HygD3": 8, "HygD4": 8}
+           "NPl": 4, "HygD0": 8, "HygD1": 8, "HygD2": 8, "HygD3": 8, "HygD4": 8}
 
 
 def tags(n, base=0):
@@ -639,7 +639,10 @@ def slicemut_invalid(shapes, L, seed):
             for _ in range(12):
                 cands.add(tuple(rng.randrange(n + 1) for _ in range(n)))
                 cands.add(tuple(rng.randrange(max(n, 1)) for _ in range(n)))
-            cands.add(tuple(range(n + 1))); cands.add(tuple(range(max(n - 1, 0)))); cands.add(tuple([0] * n)); cands.add(tuple(reversed(range(n))))
+            cands.add(tuple(range(n + 1))); cands.add(tuple(range(max(n - 1, 0))));
+            # exactly `n` entries, strictly increasing, not a permutation: shifted by one, or the last one out of range
+            if n > 0: cands.add(tuple(range(1, n + 1))); cands.add(tuple(list(range(n - 1)) + [n + 5]))
+            cands.add(tuple([0] * n)); cands.add(tuple(reversed(range(n))))
             for via in ("vec", "slicemut"):
                 for c in sorted(cands):
                     out.append(Scenario(sh, base + [f"apply_index r0 {via} {tl(c)}", "len r0", "push r0 30"], "apply_index"))
@@ -687,6 +690,11 @@ def fault_scenarios(shapes, L, seed):
                     for k in range(0, 3 * n2 + 2):
                         others.append(Scenario(sh, base2 + [f"sort r0 {entry} mod=7 panic={k}"] + AFTER +
                                                ["sort r0 sort_by_key mod=7", "sort r0 tvec_sort_by mod=5", "len r0"], "sort-fault-unsorted"))
+            # a length no allocation can hold: `resize` reports "capacity overflow" and has changed nothing (all-zero-sized structs excluded:
+            # their `Vec<T>::resize(usize::MAX)` really pushes)
+            if cl and sh not in ("ZZ",) and n <= 2:
+                for big in (MAX, MAX - 1, 2 ** 63):
+                    others.append(Scenario(sh, base + [f"resize r0 {big} 27", "len r0", "push r0 28"] + AFTER, "resize-overflow"))
             # user Clone: to_vec, resize, extend_from_slice, Extend<Ref>, to_owned
             for k in range(0, nl * (n + 2) + 1):
                 if cl:
@@ -696,6 +704,9 @@ def fault_scenarios(shapes, L, seed):
                     # (known findings KF-C16-*: the container may be left desynchronised; nothing is run on it afterwards
                     #  except the final drop, because debug builds would only cascade assertion failures)
                     others.append(Scenario(sh, base + [f"clonefuse {k}", f"resize r0 {n + 3} 27"], "resize-fault"))
+                    # clone_from: into a shorter, an equal and a longer vector
+                    for m2 in sorted({0, n, n + 2}):
+                        others.append(Scenario(sh, base + [setup(m2, "r1", 20), f"clonefuse {k}", "clone_from r1 r0", "len r1", "push r1 28", "pop r1"] + AFTER, "clone_from-fault"))
                     others.append(Scenario(sh, base + [setup(2, "r1", 20), f"clonefuse {k}", "extend_from_slice r1 r0"], "extend_from_slice-fault"))
                 if n > 0 and k <= nl:
                     others.append(Scenario(sh, base + [f"clonefuse {k}", f"refs r0 to_owned {n - 1}"] + AFTER, "to_owned-fault"))
